@@ -18,10 +18,11 @@ Ltac cfg :=
   repeat match goal with H : _ /\ _ |- _ => destruct H end;
   try congruence; try lia; auto.
 
-Lemma apply_ev_cfg e c : same_cfg c (apply_ev e c).
+Lemma apply_ev_cfg e : forall c, same_cfg c (apply_ev e c).
 Proof.
-  destruct e; cbn [apply_ev]; unfold close_internal, same_cfg;
-    try destruct (closed c); cbn; auto.
+  induction e as [n| | | | | |a IHa b IHb]; intros c; cbn [apply_ev];
+    try (unfold close_internal, same_cfg; try destruct (closed c); cbn; auto; fail).
+  eapply same_cfg_trans; [apply IHa | apply IHb].
 Qed.
 
 Lemma apply_evs_cfg es c : same_cfg c (apply_evs es c).
@@ -31,10 +32,11 @@ Proof.
   - eapply same_cfg_trans; [apply apply_ev_cfg | apply IH].
 Qed.
 
-Lemma apply_ev_window e c : ev_ok e = true -> 0 <= window c -> 0 <= window (apply_ev e c).
+Lemma apply_ev_window e : forall c, ev_ok e = true -> 0 <= window c -> 0 <= window (apply_ev e c).
 Proof.
-  destruct e; cbn [apply_ev ev_ok]; unfold close_internal; intros He Hw;
-    try destruct (closed c); cbn; lia.
+  induction e as [n| | | | | |a IHa b IHb]; intros c; cbn [apply_ev ev_ok]; intros He Hw;
+    try (unfold close_internal; try destruct (closed c); cbn; lia).
+  apply andb_true_iff in He as [Ha Hb]. apply IHb; [exact Hb | apply IHa; assumption].
 Qed.
 
 Lemma apply_evs_window es c :
